@@ -387,7 +387,9 @@ func (w *fsWalker) walk(b *ssa.BasicBlock, idx int, prev *ssa.BasicBlock, s *fsS
 				} else if call, ok := cond.(*ssa.Call); ok && errPredicates[calleeName(call)] && len(call.Call.Args) > 0 {
 					arg := call.Call.Args[0]
 					// I7 not-exist tolerance: "the thing is not there" is an answer, not a failure
-					if w.isE(arg) && !s.fresh && (calleeName(call) == "os.IsNotExist" || (calleeName(call) == "errors.Is" && len(call.Call.Args) == 2 && vGlobal("os.ErrNotExist")(call.Call.Args[1])) || w.toleratedPredicate(call)) {
+					notExist := calleeName(call) == "os.IsNotExist" || (calleeName(call) == "errors.Is" && len(call.Call.Args) == 2 && vGlobal("os.ErrNotExist")(call.Call.Args[1]))
+					// built-in not-exist tolerance only for local file-system calls of package os
+					if w.isE(arg) && !s.fresh && ((notExist && strings.HasPrefix(calleeName(w.c), "os.")) || w.toleratedPredicate(call)) {
 						w.tolerated++
 						if neg {
 							takeF = false
